@@ -356,3 +356,89 @@ def gen_maxima(readme_path):
             ops.append(f"hdrmax sfull {k}")
             ops.append(f"hdrmax snz {k}")
     return ops
+
+
+# ---------------------------------------------------------------- array codecs (C02 C03 C13 C16)
+ARRAY_CODECS = ["delta", "deltau", "for", "forb", "pfor", "group", "dict", "rle", "rleh", "egamma", "edelta",
+                "bp32", "bp64", "bpd32", "bpd64"]
+LENS_QUICK = [1, 2, 3, 7, 8, 9, 15, 16, 17, 63, 64, 65, 127, 128, 129, 130, 240, 241, 255, 256, 257, 300, 383, 384,
+              385, 1000, 2287, 2288, 4095, 4096, 4097]
+LENS_THOROUGH = LENS_QUICK + [9999, 10000, 10001, 16383, 16384, 65535, 65536, 65537]
+RANGES = sorted(set([0, 1, 2, 15, 16, 100, 127, 128, 239, 240, 241, 254, 255, 256, 257, 2287, 2288, 65534, 65535, 65536,
+                     67823, 67824, (1 << 24) - 2, (1 << 24) - 1, 1 << 24, (1 << 32) - 2, (1 << 32) - 1, 1 << 32,
+                     (1 << 40) - 1, 1 << 40, (1 << 48) - 1, 1 << 48, (1 << 56) - 2, (1 << 56) - 1, 1 << 56,
+                     (1 << 62), (1 << 63) - 1, 1 << 63, M64 - 1, M64] +
+                    [(1 << k) - 1 for k in range(1, 65)] + [1 << k for k in range(1, 64)]))
+LOS = [0, 1, 63, 240, 241, 255, 256, 2287, 2288, 65535, 67824, 1 << 24, (1 << 32) - 1, 1 << 32, 1 << 40, 1 << 56,
+       (1 << 63) - 1, 1 << 63]
+SHAPES = "radcupo"
+
+
+def arr_spec(rng, n, shape=None, lo=None, rg=None, maxbits=64):
+    shape = shape or rng.choice(SHAPES)
+    rg = rng.choice(RANGES) if rg is None else rg
+    lim = (1 << maxbits) - 1
+    rg = min(rg, lim)
+    lo = rng.choice(LOS) if lo is None else lo
+    if lo + rg > lim:
+        lo = lim - rg if rng.random() < 0.7 else 0
+    return f"@{shape}:{hx(rng.getrandbits(62))}:{hx(n)}:{hx(lo)}:{hx(rg)}"
+
+
+def explicit(vals):
+    return f"{hx(len(vals))} " + " ".join(hx(v) for v in vals)
+
+
+def gen_arrays(rng, tier, codecs=None):
+    codecs = codecs or ARRAY_CODECS
+    lens = LENS_QUICK if tier == "quick" else LENS_THOROUGH
+    per_len = 2 if tier == "quick" else 6
+    ops = []
+    specials = [[0], [M64], [0, M64], [M64, 0], [M64] * 5, [0] * 9, [1, 2, 3], [5, 5, 7, 7, 7, 9],
+                [M64, M64 - 1, 0, 1], [1 << 63, 0, (1 << 63) - 1], [240, 241, 2287, 2288, 67823, 67824],
+                list(range(100, 80, -1)), [255] * 3 + [0], [0, 255, 256], [0, 65535, 65536], [7] * 130,
+                [(1 << 32) - 1, 1 << 32, (1 << 32) + 1], [3, 1, 2] * 50]
+    for c in codecs:
+        maxbits = 32 if c in ("bp32", "bpd32") else 64
+        for s in specials:
+            if c == "group" and len(s) > 64:
+                continue
+            if c == "delta":
+                s = [x if x < (1 << 62) else (x | (3 << 62)) & M64 for x in s]  # keep differences representable
+                s = [x if x < (1 << 62) or x >= M64 - (1 << 61) else x >> 3 for x in s]
+            ops.append(f"{c}.rt {explicit(s)}")
+        ops.append(f"{c}.rt 0")
+        glen = [1, 2, 3, 4, 5, 7, 8, 9, 31, 32, 33, 63, 64, 65, 255, 256] if c == "group" else lens
+        for n in glen:
+            for _ in range(per_len):
+                if c == "delta":
+                    # signed: magnitudes below 2^62 around zero so that differences are representable
+                    rg = min(rng.choice(RANGES), (1 << 62) - 1)
+                    lo = rng.choice([0, 1, M64 - 5, M64 - (rg // 2), M64 - rg]) & M64
+                    if lo + rg > M64 and lo < (1 << 63):
+                        lo = 0
+                    ops.append(f"{c}.rt @{rng.choice(SHAPES)}:{hx(rng.getrandbits(62))}:{hx(n)}:{hx(lo)}:{hx(rg)}")
+                elif c == "pfor":
+                    t = rng.choice([0x5a, 0x5f, 0x63, 0x5f, 0x5f, 0, 1, 0x32, 0x64])
+                    if rng.random() < 0.5:
+                        # outlier shapes whose in-range span is 256^k - 1 (marker coincidence) or just around it
+                        k = rng.randint(1, 7)
+                        span = (1 << (8 * k)) - 1 + rng.choice([-1, 0, 0, 0, 1])
+                        lo = rng.choice([0, 1, 1000, 1 << 33])
+                        body = [lo + rng.randint(0, span) for _ in range(max(0, min(n, 400) - 3))]
+                        vals = [lo, lo + span] + body + [lo + span + rng.choice([1, 1000, 1 << 40])] * (1 if n > 2 else 0)
+                        rng.shuffle(vals)
+                        vals = [v & M64 for v in vals][:max(1, min(n, 400))]
+                        ops.append(f"pfor.rt {explicit(vals)} t={hx(t)}")
+                    else:
+                        ops.append(f"pfor.rt {arr_spec(rng, n)} t={hx(t)}")
+                else:
+                    ops.append(f"{c}.rt {arr_spec(rng, n, maxbits=maxbits)}")
+    # zig-zag definition
+    for s in [0, 1, -1, 2, -2, 63, -64, (1 << 62), -(1 << 62), (1 << 63) - 1, -(1 << 63), -(1 << 63) + 1]:
+        ops.append(f"zigzag {s}")
+    for _ in range(200 if tier == "quick" else 20000):
+        k = rng.randint(1, 63)
+        x = rng.getrandbits(k)
+        ops.append(f"zigzag {x if rng.random() < 0.5 else -x}")
+    return ops
